@@ -40,8 +40,16 @@ def _uri_compared(fn_node, tests, dc, res):
             got = norm.text(st.targets[0].elts[0])
     if got is None:
         return None
+    # a comparison that was given a name (`mismatch = a != b` ... `if mismatch:`) is read through its single definition
+    defs = {}
+    for st in ast.walk(fn_node):
+        if isinstance(st, ast.Assign) and len(st.targets) == 1 and isinstance(st.targets[0], ast.Name):
+            defs.setdefault(st.targets[0].id, []).append(st.value)
     for n in tests:
-        at = set(norm.atoms(n.ast, True, res))
+        t_ = n.ast
+        if isinstance(t_, ast.Name) and len(defs.get(t_.id, [])) == 1 and isinstance(defs[t_.id][0], ast.Compare):
+            t_ = defs[t_.id][0]
+        at = set(norm.atoms(t_, True, res))
         if at in ({("eq", got, ("e", given), False)}, {("eq", given, ("e", got), False)}):
             return n
     return None
